@@ -104,7 +104,10 @@ def gen(rng):
         # contradict an existing requirement (or create a 2-cycle)
         x, y = rng.sample(pending, 2)
         if x[0] == y[0]:
-            cyclic = False
+            # an evolution that has to wait for a later one of its own app
+            a, b = sorted([x, y], key=lambda u: int(u[1][1:]))
+            evo_deps.setdefault(a, {}).setdefault(
+                'AFTER_EVOLUTIONS', []).append(list(b))
         else:
             evo_deps.setdefault(x, {}).setdefault(
                 'AFTER_EVOLUTIONS', []).append(list(y))
